@@ -27,6 +27,7 @@ work-list loop and final assembly.  `tools/props/C01.json` (`level_note`) says w
 import Rooc.Proofs.LinGadgets
 import Rooc.Proofs.LinC10
 import Rooc.Proofs.LinExamples
+import Rooc.Proofs.LinMain
 namespace Rooc.Props.C01
 open Rooc Rooc.Lin
 open Rooc.Lin.Gadget (B01 DomMax DomMin)
@@ -397,5 +398,82 @@ theorem c01_affine' {m : Model (Ext K)} {b : BoundsMap (Ext K)} {d : List (DomVa
     · exact (haff.cons c hc).rhs.2 x hx
 
 end StageB
+
+/-! ## Stages C and E — `abs`, `min`, `max` with auxiliaries; the work-list loop; C01 on piecewise-linear models
+
+Vocabulary (definitions in `Rooc/Proofs/LinSpec.lean`, `LinFrag.lean`, `LinLoop.lean`, `LinFinal.lean`):
+* `frag true e` = `e` is built from literals, variables, `+ - * /`, unary minus, `abs`, `min{…}`, `max{…}`
+  (any nesting; `frag false` excludes `min`/`max`).
+* `rel req a v` = what the requirement promises about the context value `a` against the true value `v`:
+  `lower : v ≤ a`, `higher : a ≤ v`, `exact : a = v`.
+* `Spec Src e req s c s'` (for `linExp e req s = .ok (c, s')`): rows untouched; domain and queue only grow; the
+  state invariant `StInv` (distinct names, the bounds map is implied by the domains, every queue entry scoped,
+  every NEW queue entry an everywhere-defined affine comparison) is preserved; `c` is well-formed over declared
+  variables; **sound**: every assignment satisfying the new domains and the new queue has
+  `rel req (ctxVal ρ c) (eval ρ e)`; **complete**: every solution of the old state extends — changing only fresh
+  auxiliaries — to a solution of the new state with `ctxVal ρ' c = eval ρ e`.
+* `FragModel true m d` = objective and both sides of every constraint are `frag true`, over variables
+  declared in `d` with a usage mark, comparisons only (no bare logic assertion), defined at every assignment;
+  `DomRel m d` as in Stage B; `BoxEnforced b d` = every assignment satisfying the domains `d` lies in the box
+  `b` — the enclosure the rewrites rely on is enforced by the output's domains.  Its Boolean case is
+  `BooleanBoundsUntouched` (the range of a Boolean variable in `b` contains 0 and 1); for the other variable
+  kinds it is what `apply_to_domain` establishes.
+The bounds oracle (`Lin.boundsOf` encloses `Sem.eval` on the box) is NOT a hypothesis: it is derived from C07's
+`boundsOf_mem` in `Rooc/Proofs/LinOracle.lean` (`Lin.boundsOf` and `Analyzer.boundsOf` are the same function). -/
+
+section StageCE
+variable [FloorRing K]
+
+/-- **The requirement-indexed specification of `Exp::linearize`** on the piecewise-linear fragment:
+requirement flips through `-`, negative scales and divisions; sign-known `abs` shortcuts; one-sided `abs` rows;
+the exact big-M pair with selector; dominated-operand pruning; single retained operand; one-sided `min`/`max`
+rows; selector rows with `Σ sel = 1`. -/
+theorem linExp_spec {Src : Constraint (Ext K) → Prop} (e : Exp (Ext K)) (he : frag true e = true)
+    (req : Req) (s : St (Ext K)) (c : Ctx (Ext K)) (s' : St (Ext K))
+    (hpre : Pre Src e s) (h : linExp e req s = .ok (c, s')) : Spec Src e req s c s' :=
+  lin_spec_pl e he req s c s' hpre h
+
+/-- the loop: it empties the queue, and — up to fresh auxiliaries — keeps exactly the solutions. -/
+theorem drain_sound_complete {d0 : List (DomVar (Ext K))} (n : Nat) (s : St (Ext K)) (r : Unit × St (Ext K))
+    (hinv : LoopInv true d0 s) (h : drain n s = .ok r) :
+    LoopInv true d0 r.2 ∧ r.2.queue = [] ∧
+    (∀ ρ : String → K, Sat ρ r.2 → Sat ρ s) ∧
+    (∀ ρ : String → K, Sat ρ s → ∃ ρ' : String → K, (∀ x, inScope s.domain x → ρ' x = ρ x) ∧ Sat ρ' r.2) := by
+  obtain ⟨h1, h2, h3⟩ := drain_spec (fun e he => lin_spec_pl e he) n s r hinv h
+  exact ⟨h1, h2, fun ρ hs => (h3.sound ρ hs).1, fun ρ hs => h3.complete ρ hs trivial⟩
+
+/-- **C01 on piecewise-linear models** (`abs`, `min`, `max`, arbitrary nesting, mixed-sign scales, the same
+sub-expression on both sides, constraint-derived bounds): an assignment of the declared variables is
+source-feasible iff it extends, by values for the compiler's auxiliaries only, to a point satisfying every row
+and every domain of the linear model.
+
+`_partial`: logic values / bare assertions (Stage D) are outside `FragModel`; `BoxEnforced b d` is the
+"enforced" side condition (see the header; `boxEnforced_of_entries`, `bool_entry_ok` reduce it to a per-entry
+check). -/
+theorem c01_partial {m : Model (Ext K)} {b : BoundsMap (Ext K)} {d : List (DomVar (Ext K))}
+    {lm : LinModel (Ext K)} (h : linearizeWith m b d = .ok lm)
+    (hm : FragModel true m d) (hdom : DomRel m d) (hbox : BoxEnforced b d) (ρ : String → K) :
+    srcFeasible m ρ = true ↔
+      ∃ ρ' : String → K, (∀ x, inScope d x → ρ' x = ρ x) ∧ linFeasible lm ρ' = true :=
+  pl_feasible_iff hm hdom hbox h ρ
+
+/-- non-vacuity of `c01_partial`'s hypotheses (`min x s.t. x ≤ y`; it compiles for every ordered field). -/
+example : ∃ (m : Model (Ext K)) (b : BoundsMap (Ext K)) (d : List (DomVar (Ext K))) (lm : LinModel (Ext K)),
+    linearizeWith m b d = .ok lm ∧ FragModel true m d ∧ DomRel m d ∧ BoxEnforced b d := by
+  obtain ⟨lm, h⟩ := exAffine_ok (K := K)
+  obtain ⟨haff, hdef, hdom⟩ := exAffine_hyps (K := K)
+  refine ⟨exAffine, [], exAffine.domain, lm, h, ⟨FG_of_AG haff.obj, ?_, ?_⟩, hdom, ?_⟩
+  · intro ρ; exact ⟨ρ "x", by simp [exAffine, eval]⟩
+  · intro c hc
+    exact ⟨(haff.cons c hc).notAssert, FG_of_AG (haff.cons c hc).lhs, FG_of_AG (haff.cons c hc).rhs, hdef c hc⟩
+  · intro ρ _ n bd hl; simp [lookupB] at hl
+
+/-- `BoxEnforced` from a per-entry check. -/
+theorem boxEnforced_check {b : BoundsMap (Ext K)} {d : List (DomVar (Ext K))}
+    (h : ∀ n bd, lookupB b n = some bd → ∃ dv ∈ d, dv.name = n ∧ dv.usage > 0 ∧
+      ∀ x : K, inDomain x dv.ty = true → Encl bd x) : BoxEnforced b d :=
+  boxEnforced_of_entries h
+
+end StageCE
 
 end Rooc.Props.C01
